@@ -82,6 +82,26 @@ JoinSeq(es, sep) ==
     IF es = <<>> THEN <<>>
     ELSE IF Len(es) = 1 THEN ShowElem(es[1])
     ELSE ShowElem(es[1]) \o sep \o JoinSeq(Tail(es), sep)
+\* how a value reads when displayed (to_string, println): text bare, lists in brackets, options as none / Some(x)
+RECURSIVE Show(_)
+Show(v) ==
+    CASE v.k = "str" -> v.cs
+      [] v.k = "int" -> IntText(v.v)
+      [] v.k = "bool" -> IF v.v THEN TrueText ELSE FalseText
+      [] v.k = "null" -> <<110, 117, 108, 108>>
+      [] v.k = "range" -> IntText(v.l) \o <<46, 46>> \o IntText(v.r)
+      [] v.k = "opt" -> IF v.some THEN <<83, 111, 109, 101, 40>> \o Show(v.v) \o <<41>> ELSE <<110, 111, 110, 101>>
+      [] v.k = "list" -> LET body == FoldLeft(LAMBDA acc, e : IF acc = <<>> THEN <<0>> \o Show(e) ELSE acc \o <<44, 32>> \o Show(e), <<>>, v.es) IN
+                         <<91>> \o (IF body = <<>> THEN <<>> ELSE Tail(body)) \o <<93>>
+\* (the folds mark "something was written" with a leading 0, removed afterwards, so that an empty first element still gets its separator)
+\* compact JSON of ints, bools, plain text (no characters that need escaping here) and lists of them
+RECURSIVE JsonText(_)
+JsonText(v) ==
+    CASE v.k = "str" -> <<34>> \o v.cs \o <<34>>
+      [] v.k = "int" -> IntText(v.v)
+      [] v.k = "bool" -> IF v.v THEN TrueText ELSE FalseText
+      [] v.k = "list" -> LET body == FoldLeft(LAMBDA acc, e : IF acc = <<>> THEN <<0>> \o JsonText(e) ELSE acc \o <<44>> \o JsonText(e), <<>>, v.es) IN
+                         <<91>> \o (IF body = <<>> THEN <<>> ELSE Tail(body)) \o <<93>>
 \* every non-overlapping occurrence of the non-empty text a, left to right
 RECURSIVE TextReplaceAll(_, _, _)
 TextReplaceAll(s, a, b) ==
@@ -119,6 +139,8 @@ ListMember(r, m, args) ==
                          IF p < 0 \/ p >= n THEN Interrupt ELSE Ok(VNull, VList(MemRemoveAt(es, p + 1)))
       [] m = "sort" -> Ok(VNull, VList(SortInts(es)))
       [] m = "join" -> Ok(VStr(JoinSeq(es, args[1].cs)), r)
+      [] m = "to_string" -> Ok(VStr(Show(r)), r)
+      [] m = "to_json" -> Ok(VStr(JsonText(r)), r)
       [] m = "index" -> LET p == IndexNorm(args[1].v, n) IN
                         IF p < 0 \/ p >= n THEN Interrupt ELSE Ok(es[p + 1], r)
 
@@ -128,12 +150,14 @@ OptMember(r, m, args) ==
       [] m = "unwrap" -> IF r.some THEN Ok(r.v, r) ELSE Interrupt
       [] m = "expect" -> IF r.some THEN Ok(r.v, r) ELSE Interrupt
       [] m = "unwrap_or" -> Ok(IF r.some THEN r.v ELSE args[1], r)
+      [] m = "to_string" -> Ok(VStr(Show(r)), r)
 
 RangeMember(r, m, args) ==
     CASE m = "start" -> Ok(VI(r.l), r)
       [] m = "end" -> Ok(VI(r.r), r)
       [] m = "rev" -> Ok(VRange(r.r, r.l, r.incl), r)
       [] m = "diff" -> Ok(VI(IF r.l > r.r THEN r.l - r.r ELSE r.r - r.l), r)
+      [] m = "to_string" -> Ok(VStr(Show(r)), r)
 
 IntMember(r, m, args) ==
     CASE m = "to_range" -> Ok(VRange(0, r.v, FALSE), r)
@@ -217,7 +241,8 @@ Opts == { VNone, VSome(VI(4)) }
 Ranges == { VRange(0, 3, FALSE), VRange(3, 0, TRUE), VRange(2, 2, FALSE) }
 
 Cases ==
-    UNION { { [recv |-> l, m |-> m, args |-> <<>>] : m \in {"len", "pop", "pop_front", "last", "sort"} } : l \in Lists }
+    UNION { { [recv |-> l, m |-> m, args |-> <<>>] : m \in {"len", "pop", "pop_front", "last", "sort", "to_string", "to_json"} } : l \in Lists }
+    \cup { [recv |-> VList(<<l, l2>>), m |-> m, args |-> <<>>] : l \in IntLists, l2 \in IntLists, m \in {"to_string", "to_json", "len"} }
     \cup UNION { { [recv |-> l, m |-> m, args |-> <<NewElem(l)>>] : m \in {"push", "push_front", "contains"} } : l \in Lists }
     \cup { [recv |-> l, m |-> "contains", args |-> <<OldElem(l)>>] : l \in Lists }
     \cup { [recv |-> l, m |-> "concat", args |-> <<l2>>] : l \in IntLists, l2 \in IntLists }
@@ -226,10 +251,10 @@ Cases ==
     \cup UNION { { [recv |-> l, m |-> "insert", args |-> <<VI(i), NewElem(l)>>] : i \in Idx(Len(l.es)) } : l \in Lists }
     \cup UNION { { [recv |-> l, m |-> "remove", args |-> <<VI(i)>>] : i \in Idx(Len(l.es)) } : l \in Lists }
     \cup UNION { { [recv |-> l, m |-> "index", args |-> <<VI(i)>>] : i \in Idx(Len(l.es)) } : l \in Lists }
-    \cup UNION { { [recv |-> o, m |-> m, args |-> <<>>] : m \in {"is_some", "is_none", "unwrap"} } : o \in Opts }
+    \cup UNION { { [recv |-> o, m |-> m, args |-> <<>>] : m \in {"is_some", "is_none", "unwrap", "to_string"} } : o \in Opts }
     \cup { [recv |-> o, m |-> "unwrap_or", args |-> <<VI(8)>>] : o \in Opts }
     \cup { [recv |-> o, m |-> "expect", args |-> <<Txt(<<109>>)>>] : o \in Opts }
-    \cup UNION { { [recv |-> r, m |-> m, args |-> <<>>] : m \in {"start", "end", "rev", "diff"} } : r \in Ranges }
+    \cup UNION { { [recv |-> r, m |-> m, args |-> <<>>] : m \in {"start", "end", "rev", "diff", "to_string"} } : r \in Ranges }
     \cup { [recv |-> VI(n), m |-> "to_range", args |-> <<>>] : n \in {0, 3} }
     \cup { [recv |-> VI(n), m |-> "to_string", args |-> <<>>] : n \in {0, 7, -7, 10, -120, 12345, 1000000007} }
     \cup { [recv |-> VB(b), m |-> "to_string", args |-> <<>>] : b \in BOOLEAN }
